@@ -5,6 +5,10 @@
 (2) the state graph of the universe (one state per instance, holding the instance and the specification's expectation)
     is dumped and EVERY instance is executed on the real code (harness/savable_real.py) and compared with the expectation;
 (3) the census of instances on which a declarative property fails is reported per deviation clause.
+
+Families of instances: A (decorator chains x member kinds x loader configurations x unknown class names), B (decorator | hook
+declarations x order of use), C (loader configurations incl. the alias loader x unknown class / unknown RECORDED LOADER x how
+the load context is supplied (None | one shared loader-less LoadSaveContext) x which bundle went through it before).
 """
 import collections
 import json
@@ -33,8 +37,14 @@ FAM_A = dict(kinds=KINDS, loaders=None, unknowns=None, ways=['deco'], orders=[])
 FAM_B = dict(kinds=['value', 'method', 'tuple'], loaders=['default'], unknowns=[], ways=['deco', 'hook'], orders=['parent', 'child'])
 LOADERS = ['default', 'global', 'persave', 'ctxboth']
 UNKNOWNS = ['noattr', 'malformed', 'nocls', 'nometa', 'nested']
+# family C: the SESSION - every loader configuration (also a loader writing identifiers the default loader resolves too, to another
+# class) x unknown class / unknown recorded loader x load context None | one shared loader-less object x a bundle saved with another
+# loader loaded through it before x order of use (up to three loads through one context)
+LOADERS_C = LOADERS + ['peralias']
+FAM_C = dict(kinds=['value', 'sav1'], loaders=LOADERS_C, unknowns=['noattr', 'noldr', 'badldr'], ways=['deco'], orders=['parent'],
+             ctxs=['shared'], priors=['plain', 'custom'])
 PROPS = ['RoundTrip', 'ValuesEqual', 'CopiedAtSave', 'MethodsRebound', 'NestedRecreated', 'FutureState', 'LoaderPrecedence',
-         'UnknownIsValueError', 'SetsIntact']
+         'UnknownIsValueError', 'SetsIntact', 'ContextIsCallers']
 WHAT = {
     'D19a': 'the object loader recorded in the saved state is never used: save() writes its identifier to '
             "['!!meta']['user']['object_loader'], _ensure_object_loader reads ['!!meta']['object_loader'] (and would use the "
@@ -56,7 +66,7 @@ def fixes():
 
 
 def mc(name, names, maxchain, fx, known, only_chains=(), invariants=(), detail=True, kinds=KINDS, loaders=None, unknowns=None,
-       ways=('deco',), orders=()):
+       ways=('deco',), orders=(), ctxs=(), priors=()):
     if only_chains:
         tla = '---- MODULE %s ----\nEXTENDS Savable\nMCOnly == {%s}\n====\n' % (name, ', '.join(tlaval.emit(c) for c in only_chains))
     else:
@@ -65,6 +75,7 @@ def mc(name, names, maxchain, fx, known, only_chains=(), invariants=(), detail=T
         tlaval.emit(set(names)), maxchain, tlaval.emit(set(kinds)), tlaval.emit(set(LOADERS if loaders is None else loaders)),
         tlaval.emit(set(UNKNOWNS if unknowns is None else unknowns)))
     cfg += ' Ways = %s\n Orders = %s\n' % (tlaval.emit(set(ways)), tlaval.emit(set(orders)))
+    cfg += ' Ctxs = %s\n Priors = %s\n' % (tlaval.emit(set(ctxs)), tlaval.emit(set(priors)))
     cfg += ' Fixes = %s\n Known = %s\n OnlyChains <- MCOnly\n Detail = %s\n' % (tlaval.emit(set(fx)), tlaval.emit(set(known)), 'TRUE' if detail else 'FALSE')
     cfg += ''.join('INVARIANT %s\n' % i for i in invariants)
     return tla, cfg
@@ -109,7 +120,7 @@ def persisted(inst):
 
 def size(inst):
     return (len(inst['chain']), len(persisted(inst)), sum(len(d['names']) for d in inst['chain']), inst['unk'] != 'none', inst.get('first', 0) != 0,
-            json.dumps(inst, sort_keys=True))
+            inst.get('prior', 'none') != 'none', inst.get('lc', 'asis') != 'asis', json.dumps(inst, sort_keys=True))
 
 
 def _work(args):
@@ -240,19 +251,25 @@ def run(tier, seed):
         # quick: every chain of <=2 classes and a seeded sample of the 3-class chains, two names
         ca = sample_chains(rng, 'ab', 3, FAM_A['ways'], 40)
         cb = sample_chains(rng, 'ab', 3, FAM_B['ways'], 150)
+        cc = sample_chains(rng, 'ab', 2, FAM_C['ways'], 12)
         verdict = []          # the property invariants are checked in the dump runs themselves
         replays = [dict(name='MC_C19_A_ab3s', names='ab', maxchain=3, only_chains=ca, verdict=(invs, known), **FAM_A),
-                   dict(name='MC_C19_B_ab3s', names='ab', maxchain=3, only_chains=cb, verdict=(invs, known), **FAM_B)]
+                   dict(name='MC_C19_B_ab3s', names='ab', maxchain=3, only_chains=cb, verdict=(invs, known), **FAM_B),
+                   dict(name='MC_C19_C_ab2s', names='ab', maxchain=2, only_chains=cc, verdict=(invs, known), **FAM_C)]
     else:
         verdict = [dict(name='MC_C19_A_abc3_k6', names='abc', maxchain=3, **dict(FAM_A, kinds=KINDS6)),
                    dict(name='MC_C19_A_abc2', names='abc', maxchain=2, **FAM_A),
                    dict(name='MC_C19_A_ab3', names='ab', maxchain=3, **FAM_A),
-                   dict(name='MC_C19_B_abc3', names='abc', maxchain=3, **FAM_B)]
+                   dict(name='MC_C19_B_abc3', names='abc', maxchain=3, **FAM_B),
+                   dict(name='MC_C19_C_abc2', names='abc', maxchain=2, **FAM_C),
+                   dict(name='MC_C19_C_ab3', names='ab', maxchain=3, **FAM_C)]
         replays = [dict(name='MC_C19_dump_A_ab3', names='ab', maxchain=3, **FAM_A),
                    dict(name='MC_C19_dump_A_abc2s', names='abc', maxchain=2, only_chains=sample_chains(rng, 'abc', 2, ['deco'], 30), **FAM_A),
                    dict(name='MC_C19_dump_A_abc3s', names='abc', maxchain=3, only_chains=[chain_tla(c) for c in rng.sample(all_chains('abc', 3, ['deco']), 12)], **FAM_A),
                    dict(name='MC_C19_dump_B_ab3', names='ab', maxchain=3, **FAM_B),
-                   dict(name='MC_C19_dump_B_abc3s', names='abc', maxchain=3, only_chains=[chain_tla(c) for c in rng.sample(all_chains('abc', 3, ['deco', 'hook']), 400)], **FAM_B)]
+                   dict(name='MC_C19_dump_B_abc3s', names='abc', maxchain=3, only_chains=[chain_tla(c) for c in rng.sample(all_chains('abc', 3, ['deco', 'hook']), 400)], **FAM_B),
+                   dict(name='MC_C19_dump_C_ab2', names='ab', maxchain=2, **FAM_C),
+                   dict(name='MC_C19_dump_C_ab3s', names='ab', maxchain=3, only_chains=[chain_tla(c) for c in rng.sample(all_chains('ab', 3, ['deco']), 30)], **FAM_C)]
     violations = 0
     states = transitions = 0
     mc_summ = []
@@ -322,7 +339,9 @@ def run(tier, seed):
             states += res.distinct
             transitions += res.generated
         mc_summ.append({'instance': v['name'], 'names': sorted(v['names']), 'max_chain': v['maxchain'], 'kinds': len(v['kinds']),
-                        'declared_by': v['ways'], 'order_of_use': v['orders'], 'chains': len(v.get('only_chains', ())) or 'all', 'distinct_states': res.distinct,
+                        'declared_by': v['ways'], 'order_of_use': v['orders'], 'load_context': ['asis'] + list(v.get('ctxs', ())),
+                        'loaded_before': ['none'] + list(v.get('priors', ())), 'loaders': list(v['loaders'] or LOADERS),
+                        'unknowns': list(UNKNOWNS if v['unknowns'] is None else v['unknowns']), 'chains': len(v.get('only_chains', ())) or 'all', 'distinct_states': res.distinct,
                         'states_generated': res.generated, 'invariants': invs, 'violated': res.violated, 'wall_s': round(res.wall, 1),
                         'complete': bool(res.ok)})
         if res.violated:
@@ -332,7 +351,8 @@ def run(tier, seed):
             obs = None
             if inst:
                 o = savable_real.execute(inst)
-                obs = {'stage': o['stage'], 'exc': o['exc'], 'facts': sorted(o['facts']), 'resave': o['resave'], 'stable': o['stable']}
+                obs = {'stage': o['stage'], 'exc': o['exc'], 'facts': sorted(o['facts']), 'resave': o['resave'], 'stable': o['stable'],
+                       'prior': o['prior'], 'used': o['used'], 'priorUsed': o['priorUsed'], 'ctx': o['ctx']}
             path = write_replay('tlc', {'kind': 'tlc-counterexample', 'violated': res.violated, 'fixes': fx, 'instance': inst,
                                         'specification': {k: (sorted(v2) if isinstance(v2, (set, frozenset)) else v2) for k, v2 in (st.get('out') or {}).items()},
                                         'implementation': obs})
@@ -371,11 +391,15 @@ def run(tier, seed):
         'samples': samples or [{'note': 'nothing replayed'}], 'evaluations': replayed, 'distinct_nontrivial': nontrivial,
         'rule': 'instance = (chain of <=MaxChain classes each declaring nothing, @auto_persist(subset of Names) or a persist() hook calling '
                 'cls.auto_persist(subset), instantiated class, kind of every persisted member, loader configuration, unknown-class flavour, '
-                'which other class of the chain was saved+loaded first); family A = decorators x kinds %s x loaders %s x unknown names; '
-                'family B = decorator|hook x order of use (none|an ancestor first|a descendant first) x kinds %s; every instance is one TLC '
-                'state and one execution of the real code (build classes with type(), use the other class, save, tamper, mutate original, '
-                'load, save again); non-trivial = at least one persisted member; instances are distinct by construction'
-                % (KINDS, LOADERS, FAM_B['kinds']),
+                'which other class of the chain was saved+loaded first, how the load context is supplied (as the configuration says | one shared '
+                'loader-less LoadSaveContext for every load), which bundle was loaded through it before (none | saved plainly | saved with the '
+                'custom loader)); family A = decorators x kinds %s x loaders %s x unknown names; '
+                'family B = decorator|hook x order of use (none|an ancestor first|a descendant first) x kinds %s; family C = loaders %s x unknown '
+                'class / unknown recorded loader %s x load context x loaded before x ancestor first x kinds %s; every instance is one TLC '
+                'state and one execution of the real code (build classes with type(), load the prior bundle, use the other class, save, tamper, '
+                'mutate original, load, save again - all loads through the one load context); non-trivial = at least one persisted member; '
+                'instances are distinct by construction'
+                % (KINDS, LOADERS, FAM_B['kinds'], LOADERS_C, FAM_C['unknowns'], FAM_C['kinds']),
         'exhaustive': True, 'model_checking': mc_summ, 'replay': rp_summ, 'property_failures_by_deviation': census_out,
         'deviation_clauses_exercised': sorted(devs_hit), 'fixes_modelled': fx, 'known_deviations': known,
     }
@@ -385,6 +409,11 @@ def run(tier, seed):
         'quick: all chains of <=2 classes and a seeded sample of the 3-class chains over two names (both the TLC verdict and the execution); '
         'thorough: see model_checking/replay entries',
         'the custom loader uses an identifier scheme disjoint from DefaultObjectLoader\'s and raises ValueError for anything it cannot resolve',
+        'the alias loader (configuration peralias) writes the legacy name L<i> for the chain class K<i> in DefaultObjectLoader\'s own format; '
+        'the module holds stand-in Savables L1..L3 under those names, so the default loader resolves the same identifier to a different class',
+        'an unavailable recorded loader is modelled by rewriting the recorded identifier (unknown name | unknown format), not by unloading a module',
+        'a session makes at most three loads (prior bundle, another class of the chain, the bundle under test) through one load context; the '
+        'caller\'s context is observed through its public attribute `loader`',
         'nested Savables: helper classes N1 (value, method) and N2 (value, N1, resolved future): nesting depth 2',
         'exception objects held by futures are compared by tag, and are not mutated after the save',
         'thorough: model-checked completely are 3 classes x 3 names (family A with 6 member kinds, family B), 2 classes x 3 names and '
@@ -404,7 +433,8 @@ def replay(path):
     warnings.simplefilter('ignore')
     o = savable_real.execute(inst)
     print('instance:', json.dumps(inst, sort_keys=True))
-    print('implementation: stage=%s exc=%s resave=%s stable=%s custom-loader-resolved-class=%s' % (o['stage'], o['exc'], o['resave'], o['stable'], o['usedC']))
+    print('implementation: prior-load=%s (resolved by %s) stage=%s exc=%s resave=%s stable=%s class-resolved-by=%s loader-left-in-the-callers-context=%s' % (
+        o['prior'], o['priorUsed'], o['stage'], o['exc'], o['resave'], o['stable'], o['used'], o['ctx']))
     for f in sorted(o['facts']):
         print('   ', f)
     for k in ('diffs', 'properties_failing', 'deviation_clauses', 'what', 'specification'):
